@@ -60,15 +60,129 @@ Qed.
 Lemma binding_ev x Y : bind_ok x = true -> Ev (CBinding (tk1 (bind_tk x) :: Y)) (0, Y).
 Proof. intros _. apply ev0. intros s. cbn [F]. unfold F_binding, bind_tk. destruct (x <? 0); reflexivity. Qed.
 
+(* ---- destructuring patterns (skipTypeScriptBinding) ---- *)
+Lemma skip_commas_repeat h X : is KComma X = false -> skip_commas (repeat (tk1 KComma) h ++ X) = X.
+Proof.
+  intros H. induction h as [|h IH]; cbn [repeat app].
+  - destruct X as [|[k n] r]; [reflexivity|]. destruct k; try reflexivity. discriminate.
+  - cbn. exact IH.
+Qed.
+
+Definition BindSt (p : pat) : Prop := top_pat p = true -> forall Y, Ev (CBinding (Rp p Y)) (0, Y).
+Definition BindSt' (p : pat) : Prop := BindSt p /\ match p with PRest q | PProp _ q => BindSt q | _ => True end.
+
+Lemma pat_first p Y : top_pat p = true ->
+  is KRBrack (Rp p Y) = false /\ is KDotDotDot (Rp p Y) = false /\ is KRParen (Rp p Y) = false /\ is KComma (Rp p Y) = false.
+Proof.
+  destruct p; try discriminate; intros _; cbn [Rp]; unfold bind_tk;
+    try match goal with |- context [?a <? 0] => destruct (a <? 0) end; repeat split; reflexivity.
+Qed.
+
+Lemma arr_loop : forall es, Forall BindSt' es ->
+  forallb (fun e => match e with PRest q => (match q with PId _ | PArr _ _ | PObj _ => wf_pat q | _ => false end)
+                              | PId _ | PArr _ _ | PObj _ => wf_pat e | _ => false end) es = true ->
+  forall Y, Ev (CBindArr (join [tk1 KComma] (map Rp es) (tk1 KRBrack :: Y))) (0, tk1 KRBrack :: Y).
+Proof.
+  induction es as [|e l IH]; intros HB W Y.
+  - cbn [map join]. apply ev0. intros s. reflexivity.
+  - inversion HB as [|? ? Be Bl]; subst. cbn [forallb] in W. apply andb_true_iff in W as [We Wl].
+    specialize (IH Bl Wl Y).
+    set (rest := match l with [] => tk1 KRBrack :: Y | _ => tk1 KComma :: join [tk1 KComma] (map Rp l) (tk1 KRBrack :: Y) end).
+    assert (EJ : join [tk1 KComma] (map Rp (e :: l)) (tk1 KRBrack :: Y) = Rp e rest) by (subst rest; destruct l; reflexivity).
+    rewrite EJ. clear EJ.
+    (* the element proper (without "...") and its binding *)
+    assert (Hel : exists (q : pat) (d : bool), Rp e rest = (if d then [tk1 KDotDotDot] else []) ++ Rp q rest /\ top_pat q = true /\ Ev (CBinding (Rp q rest)) (0, rest)).
+    { destruct e; try discriminate.
+      - exists (PId x), false. repeat split; auto. apply (proj1 Be); exact We.
+      - exists (PArr holes es), false. repeat split; auto. apply (proj1 Be); exact We.
+      - exists e, true. destruct Be as [_ Bq]. assert (T : top_pat e = true) by (destruct e; try discriminate; exact We).
+        repeat split; auto.
+      - exists (PObj ps), false. repeat split; auto. apply (proj1 Be); exact We. }
+    destruct Hel as [q [d [-> [Tq Hq]]]].
+    destruct (pat_first q rest Tq) as [F1 [F2 [F3 F4]]].
+    destruct l as [|y l'].
+    + eapply ev1; [exact Hq|]. intros s E1. cbn [F]. unfold F_bindarr. subst rest.
+      destruct d; cbn [app]; [cbn [is tk1 fst tl]; change (tk_eqb KDotDotDot KRBrack) with false; change (tk_eqb KDotDotDot KDotDotDot) with true; cbn iota|rewrite F1, F2];
+        unfold snd_of, bind; rewrite E1; reflexivity.
+    + eapply ev2; [exact Hq|exact IH|]. intros s E1 E2. cbn [F]. unfold F_bindarr. subst rest.
+      destruct d; cbn [app]; [cbn [is tk1 fst tl]; change (tk_eqb KDotDotDot KRBrack) with false; change (tk_eqb KDotDotDot KDotDotDot) with true; cbn iota|rewrite F1, F2];
+        unfold snd_of, bind; rewrite E1; cbn; exact E2.
+Qed.
+
+Lemma objpat_loop : forall ps, Forall BindSt' ps ->
+  forallb (fun m => match m with PShort x | PObjRest x => normal x
+                              | PProp _ q => (match q with PId _ | PArr _ _ | PObj _ => wf_pat q | _ => false end)
+                              | _ => false end) ps = true ->
+  forall Y, Ev (CBindObj (join [tk1 KComma] (map Rp ps) (tk1 KRBrace :: Y))) (0, Y).
+Proof.
+  induction ps as [|m l IH]; intros HB W Y.
+  - cbn [map join]. apply ev0. intros s. reflexivity.
+  - inversion HB as [|? ? Bm Bl]; subst. cbn [forallb] in W. apply andb_true_iff in W as [Wm Wl].
+    specialize (IH Bl Wl Y).
+    set (rest := match l with [] => tk1 KRBrace :: Y | _ => tk1 KComma :: join [tk1 KComma] (map Rp l) (tk1 KRBrace :: Y) end).
+    assert (EJ : join [tk1 KComma] (map Rp (m :: l)) (tk1 KRBrace :: Y) = Rp m rest) by (subst rest; destruct l; reflexivity).
+    rewrite EJ. clear EJ.
+    (* after the member: "," and the loop, or "}" *)
+    assert (Hfin : forall s, (match l with [] => True | _ => s (CBindObj (join [tk1 KComma] (map Rp l) (tk1 KRBrace :: Y))) = Ok (0, Y) end) ->
+              (if is KComma rest then s (CBindObj (tl rest)) else r2 <- expect KRBrace rest;; ok0 r2) = Ok (0, Y)).
+    { intros s E. subst rest. destruct l; [reflexivity|exact E]. }
+    assert (Hrc : is KColon rest = false) by (subst rest; destruct l; reflexivity).
+    destruct m; try discriminate; cbn [Rp].
+    + (* PShort *)
+      destruct l as [|y l'].
+      * apply ev0. intros s. cbn [F]. unfold F_bindobj. cbn [is tk1 fst hd_tk tl]. unfold bind at 1. cbn iota beta.
+        rewrite Hrc. cbn [orb negb]. unfold bind at 1. cbn iota beta. apply (Hfin s I).
+      * eapply ev1; [exact IH|]. intros s E. cbn [F]. unfold F_bindobj. cbn [is tk1 fst hd_tk tl]. unfold bind at 1. cbn iota beta.
+        rewrite Hrc. cbn [orb negb]. unfold bind at 1. cbn iota beta. apply (Hfin s E).
+    + (* PProp key: q *)
+      destruct Bm as [_ Bq]. assert (Tq : top_pat m = true) by (destruct m; try discriminate; exact Wm).
+      pose proof (Bq Tq rest) as Hq.
+      assert (Hstep : forall s, s (CBinding (Rp m rest)) = Ok (0, rest) ->
+                (match l with [] => True | _ => s (CBindObj (join [tk1 KComma] (map Rp l) (tk1 KRBrace :: Y))) = Ok (0, Y) end) ->
+                F s (CBindObj (tk1 (key_tk key) :: tk1 KColon :: Rp m rest)) = Ok (0, Y)).
+      { intros s E1 E2. specialize (Hfin s E2). clearbody rest. cbn [F]. unfold F_bindobj, key_tk.
+        destruct (0 <=? key); [|destruct (key =? -1); [|destruct (key =? -2); [|destruct (key =? -3)]]];
+          cbn; unfold snd_of, bind; rewrite E1; cbn; exact Hfin. }
+      destruct l as [|y l'].
+      * eapply ev1; [exact Hq|]. intros s E1. apply Hstep; auto.
+      * eapply ev2; [exact Hq|exact IH|]. intros s E1 E2. apply Hstep; auto.
+    + (* PObjRest *)
+      destruct l as [|y l'].
+      * apply ev0. intros s. cbn [F]. unfold F_bindobj. cbn [is tk1 fst hd_tk tl is_ident]. unfold bind at 1. cbn iota beta.
+        rewrite Hrc. cbn [orb negb]. unfold bind at 1. cbn iota beta. apply (Hfin s I).
+      * eapply ev1; [exact IH|]. intros s E. cbn [F]. unfold F_bindobj. cbn [is tk1 fst hd_tk tl is_ident]. unfold bind at 1. cbn iota beta.
+        rewrite Hrc. cbn [orb negb]. unfold bind at 1. cbn iota beta. apply (Hfin s E).
+Qed.
+
+Lemma binding_pat_all p : BindSt' p.
+Proof.
+  induction p using pat_ind'; unfold BindSt'; (split; [|try exact I; try (apply IHp)]); intros T Y; try discriminate.
+  - apply binding_ev. exact T.
+  - cbn [top_pat wf_pat] in T. cbn [Rp].
+    eapply ev1; [apply (arr_loop es H T Y)|]. intros s E1. cbn [F]. unfold F_binding. cbn [hd_tk tk1 fst tl].
+    rewrite skip_commas_repeat.
+    + unfold snd_of, bind. rewrite E1. reflexivity.
+    + destruct es as [|e l]; [reflexivity|]. cbn [forallb] in T. apply andb_true_iff in T as [Te _].
+      assert (X : forall rest, is KComma (Rp e rest) = false).
+      { intros rest. destruct e; try discriminate; cbn [Rp]; unfold bind_tk;
+          try match goal with |- context [?a <? 0] => destruct (a <? 0) end; reflexivity. }
+      destruct l; cbn [map join]; apply X.
+  - cbn [top_pat wf_pat] in T. cbn [Rp].
+    eapply ev1; [apply (objpat_loop ps H T Y)|]. intros s E1. cbn [F]. unfold F_binding. cbn [hd_tk tk1 fst tl]. exact E1.
+Qed.
+
+Lemma binding_pat p Y : top_pat p = true -> Ev (CBinding (Rp p Y)) (0, Y).
+Proof. intros T. apply (proj1 (binding_pat_all p) T Y). Qed.
+
 Lemma params_loop : forall ps, Forall Pst ps -> ParamsSt ps.
 Proof.
-  induction ps as [|p l IH]; intros HP W post.
+  induction ps as [|pm l IH]; intros HP W post.
   - cbn [map join]. apply ev0. intros s. reflexivity.
   - inversion HP as [|? ? Pp Pl]; subst. cbn [wf_params_with] in W.
-    destruct p; try discriminate. destruct Pp as [_ Kt].
+    destruct pm; try discriminate. destruct Pp as [_ Kt].
     apply andb_true_iff in W as [W Wl]. apply andb_true_iff in W as [Hx Wt].
     specialize (IH Pl Wl post).
-    assert (Hrest : exists rest, join [tk1 KComma] (map R (TParam dots x opt ann p :: l)) (tk1 KRParen :: post) = R (TParam dots x opt ann p) rest /\
+    assert (Hrest : exists rest, join [tk1 KComma] (map R (TParam dots p opt ann pm :: l)) (tk1 KRParen :: post) = R (TParam dots p opt ann pm) rest /\
               (rest = tk1 KRParen :: post \/
                (exists J, rest = tk1 KComma :: J /\ Ev (CFnArgLoop J) (0, post)))).
     { destruct l as [|y l'].
@@ -80,12 +194,12 @@ Proof.
       by (destruct Hrest as [->|[J [-> _]]]; repeat split; reflexivity).
     destruct Hst as [S1 [S2 [S3 S4]]].
     cbn [R].
-    set (after := if ann then tk1 KColon :: R p rest else rest).
-    pose proof (binding_ev x (optq opt ++ after) Hx) as HB.
-    assert (HT : ann = true -> Ev (CType LLowest fl0 (R p rest)) (0, rest)).
+    set (after := if ann then tk1 KColon :: R pm rest else rest).
+    pose proof (binding_pat p (optq opt ++ after) Hx) as HB.
+    assert (HT : ann = true -> Ev (CType LLowest fl0 (R pm rest)) (0, rest)).
     { intros ->. apply K_delim; auto. apply tail_ok_harmless. exact S2. }
-    assert (Hfirst : is KRParen (tk1 (bind_tk x) :: optq opt ++ after) = false /\ is KDotDotDot (tk1 (bind_tk x) :: optq opt ++ after) = false)
-      by (unfold bind_tk; destruct (x <? 0); split; reflexivity).
+    assert (Hfirst : is KRParen (Rp p (optq opt ++ after)) = false /\ is KDotDotDot (Rp p (optq opt ++ after)) = false)
+      by (destruct (pat_first p (optq opt ++ after) Hx) as [? [? [? ?]]]; split; assumption).
     destruct Hfirst as [F1 F2].
     destruct Hrest as [->|[J [-> HJ]]].
     + (* last parameter *)
